@@ -405,7 +405,7 @@ func idxBounded(c *core.Ctx, pk *packagesPackage, env *core.LenEnv, stack []ast.
 		if !ok2 {
 			lb, loff = l, 0
 		}
-		if core.ExprStr(lb) != core.ExprStr(base) {
+		if core.ExprStr(stripConv(pk, lb)) != core.ExprStr(stripConv(pk, base)) {
 			continue
 		}
 		slack := int64(0)
@@ -757,4 +757,29 @@ func fillCounter(pk *packagesPackage, stack []ast.Node, cont ast.Expr, id *ast.I
 		return true, "fill counter " + id.Name + ": incremented once per iteration of the range over " + core.ExprStr(loop.X) + ", the container is make(..., len(" + core.ExprStr(loop.X) + "))"
 	}
 	return false, ""
+}
+
+// stripConv removes type conversions around an expression (`int(t)` -> `t`).
+func stripConv(pk *packagesPackage, e ast.Expr) ast.Expr {
+	for {
+		e = ast.Unparen(e)
+		call, ok := e.(*ast.CallExpr)
+		if !ok || len(call.Args) != 1 {
+			return e
+		}
+		if tv, isT := pk.TypesInfo.Types[call.Fun]; isT && tv.IsType() {
+			// not out of a wide unsigned type: int(u) of a huge u is negative and slips under a `< len` guard
+			if at := pk.TypesInfo.TypeOf(call.Args[0]); at != nil {
+				if b, isB := at.Underlying().(*types.Basic); isB {
+					switch b.Kind() {
+					case types.Uint, types.Uint64, types.Uintptr:
+						return e
+					}
+				}
+			}
+			e = call.Args[0]
+			continue
+		}
+		return e
+	}
 }
